@@ -280,6 +280,20 @@ def check_decode(ctx: Ctx, case: dict) -> None:
             f"Hardness depends on what the objective object evaluated "
             f"before: generated instance {h1!r} then {h4!r} (after the "
             f"template), template {ht!r} vs {ht2!r} on a new object"))
+        if mf % 2 == 0:
+            # the executors parameter is documented as an Iterable: a
+            # one-shot iterator must serve every evaluation, too
+            from moptipyapps.binpacking2d.instgen.hardness import (
+                DEFAULT_EXECUTORS,
+            )
+            hg = Hardness(max_fes=mf, n_runs=nr,
+                          executors=iter(DEFAULT_EXECUTORS))
+            h5 = sut("Hardness.evaluate", hg.evaluate, y)
+            h6 = sut("Hardness.evaluate (second call)", hg.evaluate, y)
+            require(h5 == h1 and h6 == h1, lambda: (
+                f"Hardness with the executors given as an iterator: {h5!r} "
+                f"then {h6!r}, with the default tuple {h1!r}"))
+            labels.append("hardness_iterator_executors")
         eh = sut("ErrorsAndHardness.evaluate", ErrorsAndHardness(
             space, max_fes=mf, n_runs=nr).evaluate, y)
         require(isinstance(eh, float) and 0.0 <= eh <= 1.0,
